@@ -89,6 +89,11 @@ class Sim:
         self.first = []         # first observation of each container (python-side immutability check)
         self.violations = []
         self.flags = set()      # by-construction classes: 'readonly_alias', 'own_alias', 'pickle_index'
+        # bookkeeping of the HISTORY (not of the implementation): which allocation each caller array / container slot refers to and
+        # its flag, following the rules of the model; used only to put a history into its stratum and to steer the generator
+        self.mc = []            # per caller array: [buffer id, writeable]
+        self.mk = []            # per container: [[buffer id, writeable] per slot]
+        self.nbuf = 0
 
     # ---- observation
     def slots(self, kind, obj):
@@ -126,7 +131,43 @@ class Sim:
         taint = lambda a: bool(np.shares_memory(a, g))
         return [[[None if (taint(a) or taint(c)) else bool(np.shares_memory(a, c)) for c in self.callers] for a in self.slots(k, o)] for k, o in self.conts]
 
-    def emit(self, step, desc, ok=True):
+    def model(self, mstep):
+        '''Advance the bookkeeping of the history (see __init__) by one step of the alphabet.'''
+        op = mstep[0]
+        if op == 'new':
+            self.mc.append(self._fresh(True))
+        elif op == 'view':
+            self.mc.append(list(self.mc[mstep[1]]))
+        elif op == 'freeze':
+            self.mc[mstep[1]][1] = False
+        elif op == 'construct':
+            slots = []
+            for src in mstep[1]:
+                if src[0] == 'filter':
+                    slots.append(self._m_filter(src[1]))
+                elif src[0] == 'own':
+                    slots.append(self._m_own(src[1]))
+                else:
+                    slots.append(self._fresh(False))
+            self.mk.append(slots)
+        elif op == 'derive':
+            parent = self.mk[mstep[1]]
+            slots = []
+            for d in mstep[2]:
+                if d[0] == 'view':
+                    slots.append([parent[d[1]][0], parent[d[1]][1]])
+                elif d[0] == 'deep':
+                    slots.append(self._fresh(parent[d[1]][1]))
+                elif d[0] == 'pickle':
+                    slots.append(self._fresh(not d[2]))
+                else:
+                    slots.append(self._fresh(False))
+            self.mk.append(slots)
+        elif op == 'expose':
+            self.mc.append(list(self.mk[mstep[1]][mstep[2]]))
+
+    def emit(self, step, desc, ok=True, mstep=('none',)):
+        self.model(mstep)
         self.steps.append(step)
         self.desc.append(desc)
         self.observe(ok)
@@ -134,18 +175,18 @@ class Sim:
     # ---- caller steps
     def new(self, vals):
         self.callers.append(np.array(vals, dtype=np.int64))
-        self.emit(f'SNew {zl(vals)}', f'a{len(self.callers) - 1} = np.array({list(vals)})')
+        self.emit(f'SNew {zl(vals)}', f'a{len(self.callers) - 1} = np.array({list(vals)})', mstep=('new',))
 
     def view(self, k, sl):
         a = self.callers[k]
         n = a.shape[0]
         sel = list(range(n)[sl])
         self.callers.append(a[sl])
-        self.emit(f'SView {k} {natl(sel)}', f'a{len(self.callers) - 1} = a{k}[{sl.start}:{sl.stop}:{sl.step}]')
+        self.emit(f'SView {k} {natl(sel)}', f'a{len(self.callers) - 1} = a{k}[{sl.start}:{sl.stop}:{sl.step}]', mstep=('view', k))
 
     def freeze(self, k):
         self.callers[k].flags.writeable = False
-        self.emit(f'SFreeze {k}', f'a{k}.flags.writeable = False')
+        self.emit(f'SFreeze {k}', f'a{k}.flags.writeable = False', mstep=('freeze', k))
 
     def write(self, k, i, v):
         a = self.callers[k]
@@ -157,21 +198,33 @@ class Sim:
         self.emit(f'SWrite {k} {i} {lit.z(v)}%Z', f'a{k}[{i}] = {v}', ok)
 
     # ---- helpers for guards decided by construction of the input
-    @staticmethod
-    def _root(a):
-        while isinstance(a.base, np.ndarray):
-            a = a.base
-        return a
+    def _fresh(self, w):
+        self.nbuf += 1
+        return [self.nbuf, w]
+
+    def _writeable_on(self, buf, skip=None):
+        hs = [h for j, h in enumerate(self.mc) if j != skip] + [h for c in self.mk for h in c]
+        return any(h[0] == buf and h[1] for h in hs)
 
     def _has_other_writeable_alias(self, k):
-        '''Another caller array on the same allocation (even a disjoint or empty view of it) is writeable.'''
-        r = self._root(self.callers[k])
-        return any(j != k and b.flags.writeable and self._root(b) is r for j, b in enumerate(self.callers))
+        """Another handle on the allocation of caller array k is writeable (even a disjoint or empty view of it)."""
+        return self._writeable_on(self.mc[k][0], skip=k)
+
+    def _unsafe_filter(self, k):
+        """A read-only argument one alias of which is still writeable (class C01-readonly-alias)."""
+        return (not self.mc[k][1]) and self._writeable_on(self.mc[k][0])
 
     def _note_filter(self, k):
-        a = self.callers[k]
-        if not a.flags.writeable and self._has_other_writeable_alias(k):
+        if self._unsafe_filter(k):
             self.flags.add('readonly_alias')
+
+    def _m_filter(self, k):
+        h = self.mc[k]
+        return self._fresh(False) if h[1] else [h[0], False]
+
+    def _m_own(self, k):
+        self.mc[k][1] = False
+        return [self.mc[k][0], False]
 
     def _auto(self, n):
         return f'FromVals {zl(range(n))}'
@@ -187,7 +240,8 @@ class Sim:
         self._note_filter(k)
         n = a.shape[0]
         self.conts.append(('series', self.sf.Series(a)))
-        self.emit(f'SConstruct [FromCaller RFilter {k}; {self._auto(n)}; {self._auto(n)}]', f'c{len(self.conts) - 1} = sf.Series(a{k})')
+        self.emit(f'SConstruct [FromCaller RFilter {k}; {self._auto(n)}; {self._auto(n)}]', f'c{len(self.conts) - 1} = sf.Series(a{k})',
+                  mstep=('construct', [('filter', k), ('vals',), ('vals',)]))
         return True
 
     def c_index(self, k):
@@ -201,7 +255,8 @@ class Sim:
             return True
         self._note_filter(k)
         self.conts.append(('index', obj))
-        self.emit(f'SConstruct [FromCaller RFilter {k}; {self._auto(a.shape[0])}]', f'c{len(self.conts) - 1} = sf.Index(a{k})')
+        self.emit(f'SConstruct [FromCaller RFilter {k}; {self._auto(a.shape[0])}]', f'c{len(self.conts) - 1} = sf.Index(a{k})',
+                  mstep=('construct', [('filter', k), ('vals',)]))
         return True
 
     def c_tb(self, ks):
@@ -218,7 +273,8 @@ class Sim:
         # the same read-only argument twice: both slots keep it
         self.conts.append(('tb', obj))
         self.emit('SConstruct [' + '; '.join(f'FromCaller RFilter {k}' for k in ks) + ']',
-                  f'c{len(self.conts) - 1} = TypeBlocks.from_blocks([{", ".join("a%d" % k for k in ks)}])')
+                  f'c{len(self.conts) - 1} = TypeBlocks.from_blocks([{", ".join("a%d" % k for k in ks)}])',
+                  mstep=('construct', [('filter', k) for k in ks]))
         return True
 
     def c_frame(self, k, own):
@@ -234,13 +290,15 @@ class Sim:
         self.conts.append(('frame', self.sf.Frame(a, own_data=own)))
         r = 'ROwn' if own else 'RFilter'
         self.emit(f'SConstruct [FromCaller {r} {k}; {self._auto(n)}; {self._auto(n)}; {self._auto(1)}; {self._auto(1)}]',
-                  f'c{len(self.conts) - 1} = sf.Frame(a{k}, own_data={own})')
+                  f'c{len(self.conts) - 1} = sf.Frame(a{k}, own_data={own})',
+                  mstep=('construct', [('own' if own else 'filter', k), ('vals',), ('vals',), ('vals',), ('vals',)]))
         return True
 
     def c_series_list(self, vals):
         n = len(vals)
         self.conts.append(('series', self.sf.Series(list(vals), dtype=np.int64)))
-        self.emit(f'SConstruct [FromVals {zl(vals)}; {self._auto(n)}; {self._auto(n)}]', f'c{len(self.conts) - 1} = sf.Series({list(vals)}, dtype=int64)')
+        self.emit(f'SConstruct [FromVals {zl(vals)}; {self._auto(n)}; {self._auto(n)}]', f'c{len(self.conts) - 1} = sf.Series({list(vals)}, dtype=int64)',
+                  mstep=('construct', [('vals',), ('vals',), ('vals',)]))
 
     # ---- derivations
     def _derived(self, c, kind, obj, data_dsrcs, desc):
@@ -248,7 +306,8 @@ class Sim:
         self.conts.append((kind, obj))
         arrs = self.slots(kind, obj)
         ds = list(data_dsrcs) + [f'DVals {zl(_ints(a))}' for a in arrs[len(data_dsrcs):]]
-        self.emit(f'SDerive {c} [' + '; '.join(ds) + ']', f'c{len(self.conts) - 1} = {desc}')
+        md = [(('view', int(d.split()[1])) if d.startswith('DView') else ('fresh',)) for d in ds]
+        self.emit(f'SDerive {c} [' + '; '.join(ds) + ']', f'c{len(self.conts) - 1} = {desc}', mstep=('derive', c, md))
 
     def d_select(self, c, key):
         '''Row selection by slice (view) or by integer list (copy).'''
@@ -304,15 +363,21 @@ class Sim:
         """pickle round trip; which slots come back re-frozen is read from the generated table (Gen_c01, by name)."""
         kind, obj = self.conts[c]
         new = pickle.loads(pickle.dumps(obj))
+        tab = _setstate()
+        idx = [f for _, f in tab['Index']]
         if kind == 'tb':
             flags = f'(repeat pickle_flag_block {len(obj._blocks)})'
+            pf = [tab['TypeBlocks'][0][1]] * len(obj._blocks)
         else:
             flags = {'series': 'pickle_flags_series', 'index': 'pickle_flags_index', 'frame': 'pickle_flags_frame1'}[kind]
+            pf = {'series': [tab['Series'][0][1]] + idx, 'index': idx, 'frame': [tab['TypeBlocks'][0][1]] + idx + idx}[kind]
             if kind == 'frame':
                 assert len(obj._blocks._blocks) == 1
-            self.flags.add('pickle_index')
+        if not all(pf):
+            self.flags.add('pickle_index')      # a slot that __setstate__ does not re-freeze (read from the current source)
         self.conts.append((kind, new))
-        self.emit(f'SDerive {c} (pickle_dsrcs_from 0 {flags})', f'c{len(self.conts) - 1} = pickle.loads(pickle.dumps(c{c}))')
+        self.emit(f'SDerive {c} (pickle_dsrcs_from 0 {flags})', f'c{len(self.conts) - 1} = pickle.loads(pickle.dumps(c{c}))',
+                  mstep=('derive', c, [('pickle', j, f) for j, f in enumerate(pf)]))
 
     def d_deepcopy(self, c):
         kind, obj = self.conts[c]
@@ -330,7 +395,8 @@ class Sim:
         full = []
         for j, a in enumerate(arrs):
             full.append(ds[j] if j < len(ds) and ds[j] else f'DVals {zl(_ints(a))}')
-        self.emit(f'SDerive {c} [' + '; '.join(full) + ']', f'c{len(self.conts) - 1} = copy.deepcopy(c{c})')
+        self.emit(f'SDerive {c} [' + '; '.join(full) + ']', f'c{len(self.conts) - 1} = copy.deepcopy(c{c})',
+                  mstep=('derive', c, [(('deep', int(d.split()[1])) if d.startswith('DDeep') else ('fresh',)) for d in full]))
 
     # ---- exposure
     def expose(self, c, j):
@@ -353,7 +419,7 @@ class Sim:
                 a = (obj.index.values, obj.index.positions, obj.columns.values, obj.columns.positions)[j - nb]
                 txt = ('index.values', 'index.positions', 'columns.values', 'columns.positions')[j - nb]
         self.callers.append(a)
-        self.emit(f'SExpose {c} {j}', f'a{len(self.callers) - 1} = c{c}.{txt}')
+        self.emit(f'SExpose {c} {j}', f'a{len(self.callers) - 1} = c{c}.{txt}', mstep=('expose', c, j))
 
     # ---- result
     def hist_lit(self):
@@ -364,6 +430,16 @@ class Sim:
 
     def shares_lit(self):
         return '[' + '; '.join('[' + '; '.join('[' + '; '.join(('None' if x is None else f'Some {lit.b(x)}') for x in row) + ']' for row in slots) + ']' for slots in self.shares()) + ']'
+
+
+_SETSTATE = {}
+
+
+def _setstate():
+    from ..core import REPO
+    if REPO not in _SETSTATE:
+        _SETSTATE[REPO] = setstate_table(REPO)
+    return _SETSTATE[REPO]
 
 
 SLICES = [slice(None, None, None), slice(1, None, None), slice(None, 2, None), slice(None, None, -1), slice(None, None, 2), slice(1, 3, None), slice(0, 0, None)]
@@ -392,7 +468,7 @@ def random_history(rng, sim, length, allow):
         elif r < 0.65:
             k = rng.randrange(nk)
             a = sim.callers[k]
-            unsafe = (not a.flags.writeable) and sim._has_other_writeable_alias(k)
+            unsafe = sim._unsafe_filter(k)
             which = rng.choice(['series', 'index', 'tb', 'tb2', 'frame', 'frame_own', 'list'])
             if which == 'frame_own':
                 if sim._has_other_writeable_alias(k) and 'own_alias' not in allow:
@@ -410,7 +486,7 @@ def random_history(rng, sim, length, allow):
             elif which == 'tb2':
                 k2 = rng.randrange(nk)
                 a2 = sim.callers[k2]
-                if (not a2.flags.writeable) and sim._has_other_writeable_alias(k2) and 'readonly_alias' not in allow:
+                if sim._unsafe_filter(k2) and 'readonly_alias' not in allow:
                     continue
                 sim.c_tb([k, k2])
             elif which == 'frame':
@@ -432,7 +508,7 @@ def random_history(rng, sim, length, allow):
             elif which == 'compute':
                 sim.d_compute(c)
             elif which == 'pickle':
-                if kind != 'tb' and 'pickle_index' not in allow:
+                if kind != 'tb' and not all(f for _, f in _setstate()['Index']) and 'pickle_index' not in allow:
                     continue
                 sim.d_pickle(c)
             else:
@@ -445,6 +521,7 @@ def random_history(rng, sim, length, allow):
 
 def history_case(sim, stratum, guarded, spec=True, **extra_tags):
     h, t, sh = sim.hist_lit(), sim.trace_lit(), sim.shares_lit()
+    guarded = not sim.flags
     g = 'guarded w0 H' if guarded else 'negb (guarded w0 H)'
     m = f'(let H := {h} in trace_eqb (trace M_step w0 H) {t} && oshares_eqb (shares_obs (M_run w0 H)) {sh} && {g})%nat'
     s = f'(trace_eqb (trace S_step w0 {h}) {t})%nat' if spec else None
@@ -472,7 +549,8 @@ def heap_cases(ctx):
     for i in range(n):
         sim = Sim()
         random_history(ctx.rng, sim, ctx.rng.choice([3, 4, 5, 6, 7]), allow=set())
-        assert not sim.flags
+        if sim.flags:
+            continue
         for st in sim.steps:
             ctx.count('step:' + st.split()[0])
         yield history_case(sim, 'heap:guarded-random', True)
@@ -514,7 +592,8 @@ def heap_cases(ctx):
                 continue
             getattr(sim, op)(*args)
         ctx.count(f'route:{route}{rargs}:{pname}')
-        assert not sim.flags, sim.flags
+        if sim.flags:
+            continue
         yield history_case(sim, 'heap:guarded-exhaustive-routes', True)
     # 3. FINDING class by construction: a read-only argument one alias of which is still writeable
     for route, rargs in routes[:4]:
@@ -530,7 +609,8 @@ def heap_cases(ctx):
                 getattr(sim, route)(arg, *rargs)
             sim.write(1 - arg, 0, -7)
             sim.expose(0, 0)
-            assert sim.flags == {'readonly_alias'}
+            if sim.flags != {'readonly_alias'}:
+                continue
             yield history_case(sim, 'heap:readonly-alias', False, check='readonly-alias')
     for i in range(ctx.n(30, 300)):
         sim = Sim()
@@ -546,7 +626,8 @@ def heap_cases(ctx):
         sim.c_frame(arg, True)
         sim.write(1 - arg, 0, -7)
         sim.expose(0, 0)
-        assert sim.flags == {'own_alias'}
+        if sim.flags != {'own_alias'}:
+            continue
         yield history_case(sim, 'heap:own-alias', False, spec=False)
     for i in range(ctx.n(30, 300)):
         sim = Sim()
@@ -562,6 +643,8 @@ def heap_cases(ctx):
         j = {'c_series': 2, 'c_index': 1, 'c_frame': 2}[route]
         sim.expose(1, j)
         sim.write(len(sim.callers) - 1, 0, -7)
+        if sim.flags != {'pickle_index'}:
+            continue
         yield history_case(sim, 'heap:pickle-index', False, check='pickle-readonly', slot='_positions')
     for i in range(ctx.n(30, 300)):
         sim = Sim()
@@ -1071,6 +1154,7 @@ NODE_SKIP = {'__orig_bases__', '__parameters__', '__class_getitem__', '__dict__'
 SKIP_SUFFIX = ('_pool',)     # process pools: covered by C18
 
 
+ROT = {}     # rotation offsets of the argument pools, per member path (reset at the start of every enumeration)
 VARARGS = {'levels': [("('a', 'b')", lambda: ('a', 'b')), ('writeable ndarray [1, 2]', lambda: _warr([1, 2]))],
            'args': [], 'others': []}
 
@@ -1126,9 +1210,14 @@ def call_plans(R, fn, path, rng, tmp, budget):
             c = dict(canon)
             c[p.name] = alt
             alts.append(c)
-    rng.shuffle(alts)
-    for c in alts[:max(0, budget - 1)]:
-        plans.append(build(c))
+    # rotate through the alternatives across receivers (every alternative of every parameter is used somewhere in the zoo)
+    key = render(path)
+    n = max(0, budget - 1)
+    if alts and n:
+        off = ROT.get(key, rng.randrange(len(alts)))
+        for i in range(min(n, len(alts))):
+            plans.append(build(alts[(off + i) % len(alts)]))
+        ROT[key] = (off + n) % len(alts)
     return plans
 
 
@@ -1255,6 +1344,9 @@ class Explorer:
                 self.flag(ps, 'state-unchanged', text, f'observable state of {which} changed ({"call raised " + err if not ok else "call returned"})')
             self.base = after
             self.family_arrays = [a for _, c in self.family for _, a, _ in walk_arrays(c)]
+            if mutator:
+                # a grow-only receiver has just taken arrays in: they are now arrays "held by a container"
+                arrays = list(arrays) + [('receiver' + p[1:], a, True) for p, a, _ in walk_arrays(self.R.obj)]
         held_ids = {id(c) for _, c in held}
         seen_kind = set()
         for apath, a, inside in arrays:
@@ -1294,7 +1386,14 @@ class Explorer:
 
     def getitem(self, path, node, node_depth):
         pool = arg_pool(self.R, 'key', inspect.Parameter.empty, path, self.rng, self.tmp)
-        picks = pool[:1] + self.rng.sample(pool[1:], min(len(pool) - 1, max(0, self.budget)))
+        rest = pool[1:]
+        key = render(path) + '[]'
+        picks = pool[:1]
+        if rest:
+            off = ROT.get(key, self.rng.randrange(len(rest)))
+            n = min(len(rest), max(0, self.budget))
+            picks += [rest[(off + i) % len(rest)] for i in range(n)]
+            ROT[key] = (off + n) % len(rest)
         for txt, th in picks:
             try:
                 key = th()
@@ -1486,8 +1585,9 @@ def _positions_global():
 
 def enumeration_cases(ctx):
     rng = ctx.rng
+    ROT.clear()
     tmp = tempfile.mkdtemp(prefix='c01_')
-    budget = 3 if ctx.tier == 'quick' else 8
+    budget = max(1, int((3 if ctx.tier == 'quick' else 8) * min(ctx.scale, 3)))
     import warnings
     try:
         seen_cls = set()
